@@ -204,7 +204,17 @@ func (hm *HostsMap) rebuildMatchFiles() (matchFiles []*MatchFile) {
 	// Iterates over all the raw map entries, looking for extra map files
 	// that should be created. overlaps() defines if two entries
 	// should be placed on distinct maps due to overlap or extra filters.
-	for _, entryList := range hm.rawhosts {
+	// Hostnames are visited in a stable order: the order defines the position of
+	// the extra map files, which in turn defines who wins when a hostname declares
+	// the same path with distinct match types. The iteration order of the rawhosts
+	// map would give a distinct winner on every build of the very same entries.
+	hostnames := make([]string, 0, len(hm.rawhosts))
+	for hostname := range hm.rawhosts {
+		hostnames = append(hostnames, hostname)
+	}
+	sort.Strings(hostnames)
+	for _, hostname := range hostnames {
+		entryList := hm.rawhosts[hostname]
 		// priorities should be processed first:
 		// - /sub/dir need to be processed before /sub
 		// - with-filters need to be processed before without-filters
